@@ -312,7 +312,7 @@ func c10Custom(r *core.Run, tier string) {
 	}
 	r.AddSample(map[string]any{"history": []string{ops[0].String(), ops[len(ops)-1].String()}, "programs": len(pool)})
 	r.AddSample(map[string]any{"program_2": pool[2]})
-	r.AddCustom("histories", "operations = assemble(p, destination state) for 12 programs x 3 destination states + reassemble-the-same-tree x 3; explored: every history of length 1 and every pair (quick: over a 15-operation subset) from a fresh process (breadth first, successor = replay on a fresh worker), thorough: every ordered triple as a window of a de Bruijn sequence on live workers; invariant on every transition: output and diagnostics equal those of a fresh process, leftover destination never shows, process-global tables and the parsed tree unchanged",
+	r.AddCustom("histories", "operations = assemble(p, destination state) for 20 programs x 3 destination states + reassemble-the-same-tree x 3; explored: every history of length 1 and every pair (quick: over a 15-operation subset) from a fresh process (breadth first, successor = replay on a fresh worker), thorough: every ordered triple as a window of a de Bruijn sequence on live workers; invariant on every transition: output and diagnostics equal those of a fresh process, leftover destination never shows, process-global tables and the parsed tree unchanged",
 		map[string]any{"programs": len(pool), "operations": len(ops), "pairs_over": len(sub)}, int64(len(states))+int64(bfsHist), transitions, executed, int64(len(pool)), len(states), true, time.Since(t0).Seconds())
 }
 
